@@ -296,6 +296,52 @@ impl Check for C20 {
                 other => viol(ctx, "stack_instruction_not_lifted", hex(&stack_instr), json!({"endian": format!("{:?}", arch.endian()), "result": format!("{:?}", other.map(|r| r.map(|_| ()).map_err(|e| format!("{:?}", e))))})),
             }
         }
+        // ---- (g) data endianness: the only lifted code whose meaning depends on the byte order is the MIPS
+        // unaligned-access idiom (lwl/lwr, swl/swr); run it on memory of the descriptor's byte order
+        if name == "mips" || name == "mipsel" {
+            use crate::liftexec::{run_block, IlState, LiftEnd};
+            use crate::refeval::Bv;
+            let big = arch.endian() == Endian::Big;
+            let base: u64 = 0x1000;
+            let image: Vec<u8> = (0..12u8).map(|i| 0xa0 + i * 7).collect();
+            for off in 0..4u32 {
+                let (hi_off, lo_off) = if big { (off, off + 3) } else { (off + 3, off) };
+                // lwl $a0, hi($a1) ; lwr $a0, lo($a1)     then     swl $a2, hi($a1) ; swr $a2, lo($a1)
+                let words = [0x88a4_0000 | hi_off, 0x98a4_0000 | lo_off, 0xa8a6_0000 | (hi_off + 4), 0xb8a6_0000 | (lo_off + 4)];
+                let mut st = IlState::new(big);
+                for (i, b) in image.iter().enumerate() {
+                    st.mem.insert(base + i as u64, *b);
+                }
+                st.set("$a0", Bv::from_u64(0x1111_1111, 32));
+                st.set("$a1", Bv::from_u64(base, 32));
+                st.set("$a2", Bv::from_u64(0xdead_beef, 32));
+                let mut ok = true;
+                for (k, w) in words.iter().enumerate() {
+                    let t = arch.translator();
+                    let bytes = word_bytes(arch, *w);
+                    match guard(|| t.translate_block(&bytes, 0x40_0000 + 4 * k as u64, &Options::default())) {
+                        Ok(Ok(btr)) => {
+                            if !matches!(run_block(&btr, &mut st), LiftEnd::Next(_)) {
+                                ok = false;
+                            }
+                        }
+                        _ => ok = false,
+                    }
+                }
+                ctx.eval();
+                let a = (base + off as u64) as usize - base as usize;
+                let want_load = if big { u32::from_be_bytes(image[a..a + 4].try_into().unwrap()) } else { u32::from_le_bytes(image[a..a + 4].try_into().unwrap()) };
+                let want_store = if big { 0xdead_beefu32.to_be_bytes() } else { 0xdead_beefu32.to_le_bytes() };
+                let got_load = st.get_u64("$a0");
+                let got_store: Vec<u8> = (0..4).map(|i| *st.mem.get(&(base + 4 + off as u64 + i)).unwrap_or(&0)).collect();
+                if !ok || got_load != Some(want_load as u64) || got_store != want_store {
+                    viol(ctx, "unaligned_word_idiom_disagrees_with_endian", format!("offset{}", off), json!({"endian": format!("{:?}", arch.endian()), "words": words.iter().map(|w| format!("0x{:08x}", w)).collect::<Vec<_>>(),
+                        "loaded": got_load.map(|v| format!("0x{:x}", v)), "expected_load": format!("0x{:x}", want_load), "stored": hex(&got_store), "expected_store": hex(&want_store)}));
+                } else {
+                    ctx.class(&format!("{}/unaligned_idiom/offset{}", name, off));
+                }
+            }
+        }
         ctx.eval();
         if sp.bits() != arch.word_size() {
             viol(ctx, "stack_pointer_width", format!("{}", sp.bits()), json!({"word_size": arch.word_size()}));
